@@ -9,7 +9,8 @@ import re
 import vlib
 
 SPECDIR = os.path.join(vlib.SPEC, "Broker")
-RIG = [os.path.join(vlib.HARNESS, "inpkg", "broker", "rig_verif_test.go")]
+RIG = sorted(os.path.join(vlib.HARNESS, "inpkg", "broker", f) for f in os.listdir(os.path.join(vlib.HARNESS, "inpkg", "broker"))
+             if f.endswith("_verif_test.go"))
 
 # The model describes the code as repaired by the "fix:" commits (DESIGN.md section 7, D1-D3).
 D1_FIXED = os.environ.get("VERIF_BROKER_ASIS") != "1"
@@ -177,9 +178,18 @@ def generate_herds(n, seed, first_id):
 CRASHES = []   # (panic message, output tail, shard input file) of rig processes killed by a panic in broker code
 
 
+_BIN = {}
+
+
+def rig_binary(race=False):
+    if race not in _BIN:
+        _BIN[race] = vlib.go_test_compile_inpkg("broker", RIG, "broker-rig" + ("-race" if race else ""), go=vlib.GO_NEW, race=race)
+    return _BIN[race]
+
+
 def run_rig(chk, scenarios, race=False, shards=None, tag="rig"):
     """Execute scenarios on the real broker; returns {scenario id: [events]} and raw outputs."""
-    binary = vlib.go_test_compile_inpkg("broker", RIG, "broker-rig" + ("-race" if race else ""), go=vlib.GO_NEW, race=race)
+    binary = rig_binary(race)
     shards = shards or min(vlib.NCPU, max(1, len(scenarios) // 50))
     d = vlib.scratch(tag)
     parts = [scenarios[i::shards] for i in range(shards)]
